@@ -13,9 +13,9 @@ SC = 'impl<FS: FileSystem> FileSystem for Arc<FS>'
 
 def unit(root='/repo'):
     notes = []
-    trait_txt, info, _ = fsmodel.gen_trait(root, notes, server=True)
-    hdr, names = fsmodel.gen_forward_impl_header(root, notes)
-    SIGSUB = [('&mut dyn ZeroCopyWriter', '&mut ZW'), ('&mut dyn ZeroCopyReader', '&mut ZR'), ('&mut dyn FsCacheReqHandler', '&mut FsCacheReq'),
+    trait_txt, info, _ = fsmodel.gen_trait(root, notes, server=True, dirsink='opaque')
+    hdr, names = fsmodel.gen_forward_impl_header(root, notes, dirsink='opaque')
+    SIGSUB = [('&mut dyn FnMut(DirEntry) -> io::Result<usize>', '&mut DirSink'), ('&mut dyn FnMut(DirEntry, Entry) -> io::Result<usize>', '&mut DirSink'), ('&mut dyn ZeroCopyWriter', '&mut ZW'), ('&mut dyn ZeroCopyReader', '&mut ZR'), ('&mut dyn FsCacheReqHandler', '&mut FsCacheReq'),
               ('fn read(', 'fn read<ZW: ZeroCopyWriter>('), ('fn write(', 'fn write<ZR: ZeroCopyReader>('), ('data: IoctlData,', "data: IoctlData<'_>,")]
     # `self.deref()` on an Arc<FS> is `&**self` (definition of Deref for Arc); Verus has no specification for Arc::deref
     fns = [Fn(FS, SC, n, sig_subst=SIGSUB, lenient_sig=True, props=['C02'], ret_name='res', body_subst=[('self.deref()', '(**self)')]) for n in names]
@@ -35,6 +35,7 @@ use std::ops::Deref;
 #[derive(Clone, Copy)] pub struct SetattrValid { pub bits: u32 }
 pub mod virtio_fs { pub use super::RemovemappingOne; }
 #[verifier::external_body] pub struct FsCacheReq { _p: u8 }
+#[verifier::external_body] pub struct DirSink { _p: u8 }        // stands for the `&mut dyn FnMut(DirEntry[, Entry]) -> io::Result<usize>` callback: can only be handed on
 pub ghost struct IoctlArg { pub result: i32, pub data: Option<Seq<u8>> }
 pub type IoctlRes = IoctlArg;
 pub open spec fn ioctl_arg(d: IoctlData<'_>) -> IoctlArg { IoctlArg { result: d.result, data: (match d.data { Some(s) => Some(s@), None => None::<Seq<u8>> }) } }
